@@ -212,8 +212,9 @@ pub fn oracle(c: &StructCase, obs: &mut Obs) -> Vec<Violation> {
             )),
             Err(LibErr::Parse(e)) => match &e {
                 ParseError::InvalidFieldFormat(b) => {
-                    let tag_ok = b.field_tag == c.tag
-                        || (b.field_tag.len() >= 2 && c.tag.starts_with(&b.field_tag));
+                    // the tag of a corrupted field is fully known (option letter included), and
+                    // every InvalidFieldFormat site of the parser is given the full tag
+                    let tag_ok = b.field_tag == c.tag;
                     if !tag_ok {
                         out.push(viol(
                             format!("C09|MT{mt}|corrupt:{}|wrong-tag:{}", c.tag, b.field_tag),
@@ -248,7 +249,7 @@ pub fn oracle(c: &StructCase, obs: &mut Obs) -> Vec<Violation> {
 }
 
 pub fn run(ctx: &Ctx) {
-    ctx.add_rule("per message type: a valid generated message with one mandatory field occurrence deleted (judged when the remaining tag sequence is outside the layout language) or one field occurrence's content replaced by a content its own parser rejects; must be Err; deletion: error identifies the tag (structured field_tag or token in Display/debug_report/brief_message, option letter aside) and the type; corruption: InvalidFieldFormat with that tag and content; non-trivial = every judged case; distinct by (kind, text)");
+    ctx.add_rule("per message type: a valid generated message with one mandatory field occurrence deleted (judged when the remaining tag sequence is outside the layout language) or one field occurrence's content replaced by a content its own parser rejects; must be Err; deletion: error identifies the tag (structured field_tag or token in Display/debug_report/brief_message, option letter aside) and the type; corruption: InvalidFieldFormat with exactly that tag (option letter included) and that content; non-trivial = every judged case; distinct by (kind, text)");
     let to_json = |c: &StructCase| serde_json::to_value(c).unwrap();
     ctx.run_generated(
         "struct",
